@@ -1,7 +1,7 @@
 (* Theory.v — consequences of validator soundness that the property files cite:
    agreement of two validated programs (C12), Euler = states + dt * rhs and the dt = 0 law (C05),
    index tables and initial-value functions (C04). *)
-From GX Require Import Base Expr Topo Ode Target Sem Codegen Valid Carriers.
+From GX Require Import Base Expr Topo Ode Target Sem Codegen Valid MirrorValid Carriers.
 From Coq Require Import QArith.
 Close Scope Q_scope.
 Open Scope string_scope.
@@ -235,4 +235,18 @@ Theorem missing_names_exact o x :
 Proof.
   unfold missing_names. rewrite sort_names_In, dedup_In, filter_In, in_flat_map.
   rewrite negb_true_iff. tauto.
+Qed.
+
+(* C12 for the mirror compiler: for every well-formed model, the rhs generated with removal of unused
+   variables returns the same array as the one generated without *)
+Theorem mirror_rhs_removal_invariant {T} (N : NumOps T) (o : ode) order1 order2 ss f1 f2 (inp : inputs T) :
+  sorted_states o = Some ss -> wf_gen o ss false = true ->
+  gen_rhs o false order1 = Some f1 -> gen_rhs o true order2 = Some f2 ->
+  sizes_ok o ss inp ->
+  exists out, exec N f1 false inp = Some out /\ exec N f2 false inp = Some out /\ length out = length ss.
+Proof.
+  intros Hss Hwf H1 H2 Hsz.
+  destruct (mirror_rhs_correct N o false order1 ss f1 inp Hss Hwf H1 Hsz) as (V1 & _).
+  destruct (mirror_rhs_correct N o true order2 ss f2 inp Hss Hwf H2 Hsz) as (V2 & _).
+  exact (rhs_agree N o ss inp false f1 f2 Hsz (wf_reserved_free o ss false inp Hwf) V1 V2).
 Qed.
